@@ -166,3 +166,8 @@ pub fn plant_outside(g: &MGhost) -> (usize, u8) {
     unsafe { *g.base.add(j) = y };
     (j, y)
 }
+
+/// private fields, for harnesses living in other modules
+pub fn raw_parts(m: &BytesMut) -> (usize, usize, usize, usize) {
+    (m.ptr.as_ptr() as usize, m.len, m.cap, m.data as usize)
+}
